@@ -44,7 +44,7 @@ func verifC20SchedWorkflow(steps int) string {
 // error and LintFiles returns it: even then no tool goroutine may be unfinished at the return.
 func HarnessC20Schedule(files, steps, cpus, enc, fail int) {
 	if verifIsNative() {
-		verifC20NativeSchedule(fail == 1)
+		verifC20NativeSchedule(fail == 1, files == 0)
 		return
 	}
 	verifSetNumCPU(cpus)
@@ -69,9 +69,18 @@ func HarnessC20Schedule(files, steps, cpus, enc, fail int) {
 	verifC20 = verifC20Cmd{}
 	verifC20JSON.fail, verifC20JSON.n = fail == 1, 0
 	verifOverride("encoding/json.Unmarshal", verifC20Unmarshal)
-	l := &Linter{projects: NewProjects(), cwd: "/r", out: nil, shellcheck: "shellcheck", pyflakes: "pyflakes"}
+	l := verifLinter("/r", "shellcheck", "pyflakes")
 	verifTraceStart()
-	errs, err := l.LintFiles(args, nil)
+	var errs []*Error
+	var err error
+	if files == 0 {
+		// files = 0: the route for one file given as bytes (stdin, library users): Linter.Lint
+		verifC10Tree = map[string]int{"/r/.github/workflows/w0.yml": 2}
+		verifOverride("os.Stat", verifC10StatTree)
+		errs, err = l.Lint("/r/.github/workflows/w0.yml", []byte(verifC20SchedWorkflow(steps)), nil)
+	} else {
+		errs, err = l.LintFiles(args, nil)
+	}
 	verifTraceEvent("return")
 	if fail == 1 {
 		verifCheck(err != nil, "tool-failure-or-garbage-silently-dropped")
@@ -116,7 +125,7 @@ func HarnessC10Races(files, steps int) {
 	verifC20 = verifC20Cmd{}
 	verifC20JSON.fail, verifC20JSON.n = false, 1 // every shellcheck run reports one issue: the callbacks append to the rule's diagnostics
 	verifOverride("encoding/json.Unmarshal", verifC20Unmarshal)
-	l := &Linter{projects: NewProjects(), cwd: "/r", out: nil, shellcheck: "shellcheck", pyflakes: "pyflakes"}
+	l := verifLinter("/r", "shellcheck", "pyflakes")
 	verifTraceStart()
 	verifTraceAccesses(true)
 	errs, err := l.LintFiles(args, nil)
